@@ -833,7 +833,7 @@ fn main() {
         ("*".to_string(), args[2].clone(), unescape(&args[3]), 2usize)
     } else if args.len() >= 3 {
         let notes = &args[2];
-        let fmt = extract(notes, "format").unwrap_or_else(|| "fasta".to_string());
+        let fmt = extract(notes, "format").unwrap_or_else(|| "both".to_string());
         let file = match extract(notes, "file") {
             Some(f) => unescape(&f),
             None => Vec::new(),
